@@ -29,6 +29,14 @@ WITNESSES = [
 ]
 
 
+# files that only use fixtures (parameters, usefixtures strings, a class): opened, then visited by the scan
+USAGE_ONLY = [
+    "import pytest\n\ndef test_a(alpha, beta):\n    pass\n\ndef test_b(alpha):\n    pass\n",
+    "import pytest\n\n@pytest.mark.usefixtures(\"alpha\", 'beta')\nclass TestK:\n    def test_m(self, gamma):\n        pass\n",
+    "import pytest\n\npytestmark = pytest.mark.usefixtures(\"db\")\n\n@pytest.mark.parametrize(\"alpha, beta\", [(1, 2)], indirect=True)\ndef test_p(alpha, beta):\n    pass\n",
+]
+
+
 def u16(line_text, byte_col):
     return pyspec.utf16_col(line_text, byte_col)
 
@@ -243,6 +251,7 @@ def run(tier, seed):
     corpus_cases(cases, PROP)
     # the witnesses of the recorded findings go through the same oracle as the generated programs
     progs = [("wit%d" % i, "test_gen.py", t, {"witness"}) for i, t in enumerate(WITNESSES)]
+    progs += [("uo%d" % i, "test_gen.py", t, {"witness", "usage-only"}) for i, t in enumerate(USAGE_ONLY)]
     for i in range(n):
         src = proggen.gen_program(r.rng)
         body_refs = r.rng.random() < 0.5
@@ -250,6 +259,7 @@ def run(tier, seed):
         path = r.rng.choice(["test_gen.py", "conftest.py"])
         progs.append(("p%d" % i, path, text, src.features))
     keys = {}
+    dupkeys = {}
     for (name, path, text, feats) in progs:
         cases.case(name, {"features": sorted(feats)})
         cases.text("t0", text)
@@ -267,6 +277,11 @@ def run(tier, seed):
                 feats = set(feats) | {"same-size-predecessor"}
         ka = cases.op("analyze", path, "t0")
         keys[name] = (ka, cases.q("defs", path), cases.q("usages", path), cases.q("undeclared", path))
+        if "fixture" not in text and ("usage-only" in feats or r.rng.random() < 0.5):
+            # a file that only USES fixtures, opened in the editor and then visited by the background scan (the
+            # no-cleanup analysis of the same text): every usage is still listed once ("no duplicate entries")
+            cases.op("fresh", path, "t0")
+            dupkeys[name] = cases.q("dump")
         if any(ord(ch) > 127 for ch in text) or "strform" in feats:
             r.nontrivial.add(tuple(sorted(feats)))
     r.samples = [{"case": p[0], "path": p[1], "text": p[2]} for p in progs[:2]]
@@ -286,6 +301,18 @@ def run(tier, seed):
         ncmp += check_positions(r, name, text, impl_defs, parse_list(ia.get((name, ku), "[]")),
                                 parse_list(ia.get((name, kn), "[]")), same, cases)
     r.stats["spans_compared_with_cpython_tokens"] = ncmp
+    for name, k in dupkeys.items():
+        a = ia.get((name, k), "")
+        m = re.search(r"ubf=\[([^\]]*)\]", a)
+        if not m:
+            continue
+        ents = m.group(1).split()
+        dup = sorted({e for e in ents if ents.count(e) > 1})
+        if dup:
+            msg = (f"case {name}: after didOpen and the scan's visit of the same text the reference index lists "
+                   f"{dup[0]} {ents.count(dup[0])} times: references, code lens and incoming calls contain duplicates")
+            r.verdict.violation(name + "-dup", msg, f"# {msg}\n" + cases.replay_text(name))
+    r.stats["open_then_scan_visits_checked_for_duplicates"] = len(dupkeys)
     base = "/dev/shm/plsv-c15-%d" % os.getpid()
     import shutil
     shutil.rmtree(base, ignore_errors=True)
